@@ -632,11 +632,11 @@ func (fc *funcContext) translateExpr(expr ast.Expr) *expression {
 			}
 			return fc.formatExpr("%e.%s", e.X, strings.Join(fields, "."))
 		case types.MethodVal:
-			return fc.formatExpr(`$methodVal(%s, "%s")`, fc.makeReceiver(e), sel.Obj().(*types.Func).Name())
+			return fc.formatExpr(`$methodVal(%s, "%s")`, fc.makeReceiver(e), fc.methodName(sel.Obj().(*types.Func)))
 		case types.MethodExpr:
 			fc.pkgCtx.DeclareDCEDep(sel.Obj(), inst.TNest, inst.TArgs)
 			if _, ok := sel.Recv().Underlying().(*types.Interface); ok {
-				return fc.formatExpr(`$ifaceMethodExpr("%s")`, sel.Obj().(*types.Func).Name())
+				return fc.formatExpr(`$ifaceMethodExpr("%s")`, fc.methodName(sel.Obj().(*types.Func)))
 			}
 			if ptr, isPtr := sel.Recv().(*types.Pointer); isPtr && len(sel.Index()) == 1 {
 				if _, ptrRecv := sel.Obj().Type().(*types.Signature).Recv().Type().(*types.Pointer); !ptrRecv {
@@ -646,10 +646,10 @@ func (fc *funcContext) translateExpr(expr ast.Expr) *expression {
 					if _, isArray := ptr.Elem().Underlying().(*types.Array); isArray {
 						deref = "(recv.nilCheck, recv)" // a pointer to an array is represented by the array itself
 					}
-					return fc.formatExpr(`((recv, ...args) => $methodExpr(%s, "%s")(%s, ...args))`, fc.typeName(ptr.Elem()), sel.Obj().(*types.Func).Name(), deref)
+					return fc.formatExpr(`((recv, ...args) => $methodExpr(%s, "%s")(%s, ...args))`, fc.typeName(ptr.Elem()), fc.methodName(sel.Obj().(*types.Func)), deref)
 				}
 			}
-			return fc.formatExpr(`$methodExpr(%s, "%s")`, fc.typeName(sel.Recv()), sel.Obj().(*types.Func).Name())
+			return fc.formatExpr(`$methodExpr(%s, "%s")`, fc.typeName(sel.Recv()), fc.methodName(sel.Obj().(*types.Func)))
 		default:
 			panic(fmt.Sprintf("unexpected sel.Kind(): %T", sel.Kind()))
 		}
